@@ -1236,7 +1236,7 @@ def run(ctx):
     ctx.cov['rule'] = ('Gauss-Seidel: SPD/diagonally dominant/nonsymmetric/zero-diagonal dyadic matrices n<=7 (12) in dense, raw CSR '
                        '(explicit zeros, unsorted columns), CSC, COO (duplicates) x index lists x sweeps x iterations; iterative_solve: '
                        'exactly computable contractions x x0 x active dofs x tol x maxiter; twogrid x u0 kinds; hierarchical spaces '
-                       '(dim 1-3, degree 1-3, HB/THB, disparity inf/1/2, boundary subsets, 1-3 refinements) x strategies x smoothers; '
+                       '(dim 1-3, degree 1-3, HB/THB, disparity inf/1/2, boundary subsets, 1-3 refinements + later refinements of existing coarser levels along boundaries; every space built twice: queried after every refinement and fresh) x strategies x smoothers; '
                        'non-trivial = n>=2 resp. >=2 levels; distinct by input')
     ctx.cov['input_distribution'] = {'gauss_seidel': gs_dist, 'iterative_solve': it_dist, 'twogrid_u0': [c['u0'] for c in tg_cases],
                                      'spaces_by_levels': stats['levels'], 'mg_runs': stats['mg_runs'],
@@ -1300,7 +1300,8 @@ def replay(ctx, doc):
         res = ctx.impl.run('harness/impl/c11_driver.py', {'hs': [c]})['hs'][0]
         stats = {'mg_runs': 0, 'mg_max_dev_over_bound': 0.0, 'drivers': 0, 'drivers_inf': 0}
         bad = [('hspace-raises', res.get('msg'))] if res['status'] != 'Ok' else (
-            check_sets_on_impl(c, res) + (check_mg_on_impl(ctx, c, res, stats) if 'mg' in res else []))
+            check_sets_on_impl(c, res) + check_sets_on_impl(c, res, res['fresh'], ':fresh') + check_history_on_impl(c, res)
+            + (check_mg_on_impl(ctx, c, res, stats) if 'mg' in res and isinstance(res['non_dirichlet'], list) else []))
     ctx.count(('replay', str(c)[:200]))
     for tag, text in bad:
         ctx.report('impl:' + tag, text, {'case': public(c)})
@@ -1310,6 +1311,6 @@ def replay(ctx, doc):
 
 META = {
     'technique': 'Rocq proofs over exact rationals (row-update order by induction on the while loops, textbook update by finite-sum algebra, energy identity for subspace corrections, stopping rules as state machines, multigrid fixed point by induction over the levels) + correspondence of the Gallina model with solvers.gauss_seidel / relaxation_cy / iterative_solve / local_mg_step on generated inputs under a derived running rounding bound (iteration counts and exactly computable iterates compared exactly) + the property predicate evaluated on the implementation with independent exact/numpy oracles',
-    'level_text': 'Theorems (Coq, unbounded, exact arithmetic Qc): solvers.gauss_seidel performs exactly the row updates of the stated order for dense and CSR input, any index list, sweep and iteration count (gs_update_order); each is the textbook update of the denoted matrix for every CSR with explicit zeros, unsorted or repeated off-diagonal coordinates and at most one stored diagonal entry (gs_textbook, gs_textbook_dense, gs_dense_sparse_agree, gs_zero_diagonal_skipped); exact solutions are fixed (gs_fixed_point*), only listed unknowns change (gs_indexed_only_touches), and for symmetric matrices with positive diagonal no sweep increases the energy (semi-)norm error (gs_energy_monotone*, from the identity E(x+d)=E(x)-d^T A d for subspace corrections). iterative_solve/solve_hmultigrid return (x,k) only at the first iterate meeting the reduction and (x,inf) only after max(1,maxiter) unsuccessful steps (iterative_solve_stops); twogrid (repaired) starts from any given vector and leaves its loop only for its three stated reasons (twogrid_accepts_u0_and_stops); the exact discrete solution is a fixed point of the local multigrid cycle for every number of levels, smoother, step count, prolongators and smoothing sets satisfying the stated hypotheses (mg_fixed_point, mg_fixed_point_one_level). The cycle with exact subspace solves never increases the energy functional / energy-norm error, for every number of levels (mg_exact_J_monotone, mg_exact_energy_monotone, mg_exact_energy_monotone_dirichlet, via the Galerkin-product algebra on list matrices: galerkin_product_entries, coarse_correction_splits_J). On the C04 model of HSpace, indices_to_smooth for the strategies new and cell_supp returns valid positions, no Dirichlet dof and all new non-Dirichlet dofs, for every state (smoothing_sets_spec, dirichlet_dofs_spec). Non-canonical CSR: the routine divides by the LAST stored diagonal entry and uses the denoted off-diagonal sums (gs_row_noncanonical, gs_duplicate_diagonal_uses_last, gs_duplicate_diagonal_denoted_value, gs_duplicate_diagonal_refuted). Partial: trunc/func_supp smoothing sets only at the level of function sets (smoothing_sets_spec_partial). Two-grid convergence and the driver return values are evaluated on the implementation on every run. Tie: ~420 (thorough 2400) Gauss-Seidel cases, 150 (600) iterative_solve cases and 40 (160) multigrid cycles are run through the implementation and through the Coq model (vm_compute) and compared under the derived bound / exactly.',
+    'level_text': 'Theorems (Coq, unbounded, exact arithmetic Qc): solvers.gauss_seidel performs exactly the row updates of the stated order for dense and CSR input, any index list, sweep and iteration count (gs_update_order); each is the textbook update of the denoted matrix for every CSR with explicit zeros, unsorted or repeated off-diagonal coordinates and at most one stored diagonal entry (gs_textbook, gs_textbook_dense, gs_dense_sparse_agree, gs_zero_diagonal_skipped); exact solutions are fixed (gs_fixed_point*), only listed unknowns change (gs_indexed_only_touches), and for symmetric matrices with positive diagonal no sweep increases the energy (semi-)norm error (gs_energy_monotone*, from the identity E(x+d)=E(x)-d^T A d for subspace corrections). iterative_solve/solve_hmultigrid return (x,k) only at the first iterate meeting the reduction and (x,inf) only after max(1,maxiter) unsuccessful steps (iterative_solve_stops); twogrid (repaired) starts from any given vector and leaves its loop only for its three stated reasons (twogrid_accepts_u0_and_stops); the exact discrete solution is a fixed point of the local multigrid cycle for every number of levels, smoother, step count, prolongators and smoothing sets satisfying the stated hypotheses (mg_fixed_point, mg_fixed_point_one_level). The cycle with exact subspace solves never increases the energy functional / energy-norm error, for every number of levels (mg_exact_J_monotone, mg_exact_energy_monotone, mg_exact_energy_monotone_dirichlet, via the Galerkin-product algebra on list matrices: galerkin_product_entries, coarse_correction_splits_J). On the C04 model of HSpace, indices_to_smooth for the strategies new and cell_supp returns valid positions, no Dirichlet dof and all new non-Dirichlet dofs, for every state (smoothing_sets_spec, dirichlet_dofs_spec). Non-canonical CSR: the routine divides by the LAST stored diagonal entry and uses the denoted off-diagonal sums (gs_row_noncanonical, gs_duplicate_diagonal_uses_last, gs_duplicate_diagonal_denoted_value, gs_duplicate_diagonal_refuted). Partial: trunc/func_supp smoothing sets only at the level of function sets (smoothing_sets_spec_partial). Two-grid convergence and the driver return values are evaluated on the implementation on every run. Tie: smoothing sets (new, cell_supp) and dirichlet_dofs of every generated space are compared exactly with the C04 model the theorem is about (coq/C04/Boundary.v), on an HSpace object that was queried after every refinement and on a fresh one; ~420 (thorough 2400) Gauss-Seidel cases, 150 (600) iterative_solve cases and 40 (160) multigrid cycles are run through the implementation and through the Coq model (vm_compute) and compared under the derived bound / exactly.',
     'level_note': 'Trusted: Coq kernel + vm_compute; hand transcription of relaxation_cy.pyx, solvers.gauss_seidel/iterative_solve/twogrid/local_mg_step into Gallina (validated by the correspondence run); real arithmetic instead of binary64 (bounded per case by a running forward error bound derived from operation counts, stated in harness/props/c11.py); scipy format conversions and make_solver (SuperLU/Cholesky) satisfy their contracts; the equivalence sqrt(a)/sqrt(b)<t <-> a/b<t^2. Not covered: convergence rates; HSpace state invariants and canonical numbering (C04) behind indices_to_smooth are checked only on generated spaces; twogrid convergence only by runs. Defect repaired by fixes/C11-twogrid-u0.patch: twogrid(u0=ndarray) raised ValueError.',
 }
